@@ -170,7 +170,7 @@ def check_text(text, indents, label):
     return None, changed
 
 
-DRESSINGS = ["plain", "comments", "docs", "blank", "spaces", "trailing", "tabs_in_comment", "attr_lines", "dup_comments", "body_attrs"]
+DRESSINGS = ["plain", "comments", "docs", "blank", "spaces", "trailing", "tabs_in_comment", "attr_lines", "dup_comments", "body_attrs", "inline_docs"]
 
 
 def nested(depth):
@@ -222,6 +222,23 @@ def dress(text, how):
                 out.append(ind + "  -- second line")
                 out.append(ind + "  [maximum_bits: 32]")
                 out.append(ind + "  [is_signed: false]")
+        return "\n".join(out) + "\n"
+    if how == "inline_docs":
+        # inline documentation (with trailing blanks) and trailing comments alternate on the rows of every table
+        k = 0
+        for l in lines:
+            st = l.strip()
+            row = (st and st[0].isdigit() and "[+" in st and "bits:" not in st) or (
+                st and st[0].isupper() and " = " in st and not st.startswith("[")) or st.startswith("let ")
+            if row and not st.endswith(":"):
+                k += 1
+                if st.startswith("let "):
+                    l = l + "   # why      "
+                elif k % 2:
+                    l = l + " -- inline doc" + " " * (3 + k % 5)
+                else:
+                    l = l + "  #  c" + " " * (k % 4)
+            out.append(l)
         return "\n".join(out) + "\n"
     if how == "dup_comments":
         for l in lines:
